@@ -327,6 +327,8 @@ impl EventGen for Container {
 //@ replace[R-into] <<<events.push(OutputEvent::Start(new_el.clone()));>>> => <<<events.push(ev_start(new_el.clone()));>>>
 //@ replace[R-into] <<<(inner_events.into(), None)>>> => <<<(OutputList::from_input(inner_events), None)>>>
 //@ replace[R-into] <<<events.push(OutputEvent::End(self.0.name.clone()));>>> => <<<events.push(ev_end(self.0.name.clone()));>>>
+//@ strlit "clipPath" "mask" "marker" "pattern"
+//@ replace[R-matches] <<<matches!(\n                    self.0.name.as_str(),\n                    "clipPath" | "mask" | "marker" | "pattern"\n                )>>> => <<<(self.0.name.as_str() == "clipPath" || self.0.name.as_str() == "mask" || self.0.name.as_str() == "marker" || self.0.name.as_str() == "pattern")>>>
 //@ replace[R-typeann] <<<let mut inner_text = None;>>> => <<<let mut inner_text: Option<String> = None;>>>
 //@ before <<<let res = el.generate_events(context);>>>
 //@ | assert(context.current_depth + 1 == old(context).current_depth); // the element itself, dispatched again as an empty one, is not a nesting level of its own: the dispatcher counts it once @C17.depth.text_content_same_level
@@ -338,6 +340,7 @@ impl EventGen for Container {
 //@     && *final(context) == *old(context)     @@C03.nested.verbatim
 //@ - r is Ok && old(context).scope_stack.len() > 0 ==> final(context).scope_stack@ == old(context).scope_stack@     @@C15.container.bindings_restored
 //@ - r is Ok ==> final(context).current_depth == old(context).current_depth     @@C17.depth.container_restored
+//@ - r is Ok && (self.0.name@ == "clipPath"@ || self.0.name@ == "mask"@ || self.0.name@ == "marker"@ || self.0.name@ == "pattern"@ || self.0.name@ == "defs"@) ==> r->Ok_0.1 is None     @@C08.container.referenced_only_adds_nothing
 //@ loop 1
 //@ iter it
 //@ body-start
